@@ -51,10 +51,9 @@ theorem ef_negzero_no_nan (f : EF) (hv : f.valid = true) (hk : f.kind = .negZero
       have := two_pow_ge 1 (f.nbits - 1) (by omega); omega
     simp; omega
 
-/-- **decoded values are representable** — finite ones always; NaN/∞ exactly when the code's
-`has_nonzero()` says the format has a non-zero value (that dependence is defect F15) -/
+/-- **decoded values are representable**: finite ones, infinities and NaN alike -/
 theorem ef_decode_repr (f : EF) (hv : f.valid = true) (b : Nat) (hb : b < 2 ^ f.nbits) :
-    ∃ v, f.decode b = .ok v ∧ (v.isNar = false → f.repr v = true) ∧ (v.isNar = true → f.repr v = f.hasNonzero) := by
+    ∃ v, f.decode b = .ok v ∧ f.repr v = true := by
   have ⟨hn, _⟩ := ef_valid_basic f hv
   have hH := two_pow_pos' (f.nbits - 1)
   have hGlt : b % 2 ^ (f.nbits - 1) < 2 ^ (f.nbits - 1) := Nat.mod_lt _ hH
@@ -62,13 +61,11 @@ theorem ef_decode_repr (f : EF) (hv : f.valid = true) (b : Nat) (hb : b < 2 ^ f.
   generalize b / 2 ^ (f.nbits - 1) = S at *
   generalize b % 2 ^ (f.nbits - 1) = G at *
   by_cases hz : f.kind = .negZero ∧ G = 0 ∧ S = 1
-  · simp only [hz, and_self, if_true, FV.isNar]
-    refine ⟨by simp, fun _ => ?_⟩
-    rw [ef_repr_nan, hz.1]; simp
+  · simp only [hz, and_self, if_true]
+    rw [ef_repr_nan, hz.1]; rfl
   · simp only [hz, if_false]
     by_cases hle : G ≤ efGmax f
-    · simp only [hle, if_true, FV.isNar]
-      refine ⟨fun _ => ?_, by simp⟩
+    · simp only [hle, if_true]
       by_cases hG0 : G = 0
       · have hc : (efNumber f (decide (S = 1)) G).c = 0 := by unfold efNumber; simp [hG0]
         have hs : (efNumber f (decide (S = 1)) G).s = decide (S = 1) := by unfold efNumber; simp [hG0]
@@ -82,11 +79,9 @@ theorem ef_decode_repr (f : EF) (hv : f.valid = true) (b : Nat) (hb : b < 2 ^ f.
         simp; omega
     · simp only [hle, if_false]
       by_cases hi : f.inf = true ∧ G = efGmax f + 1
-      · simp only [hi, and_self, if_true, FV.isNar]
-        refine ⟨by simp, fun _ => ?_⟩
-        rw [ef_repr_inf, hi.1]; simp
-      · simp only [hi, if_false, FV.isNar]
-        refine ⟨by simp, fun _ => ?_⟩
+      · simp only [hi, and_self, if_true]
+        rw [ef_repr_inf, hi.1]
+      · simp only [hi, if_false]
         rw [ef_repr_nan]
         have : f.kind ≠ .none := fun hk => by
           rcases ef_none_no_nan f hv hk G hGlt with h | h
@@ -104,9 +99,9 @@ theorem ef_encode_decode_fin (f : EF) (hv : f.valid = true) (b : Nat) (hb : b < 
   have hS : b / 2 ^ (f.nbits - 1) ≤ 1 := by
     have : b / 2 ^ (f.nbits - 1) < 2 := (Nat.div_lt_iff_lt_mul hH).2 (by omega)
     omega
-  obtain ⟨v, hdv, hrep, _⟩ := ef_decode_repr f hv b hb
+  obtain ⟨v, hdv, hrep⟩ := ef_decode_repr f hv b hb
   rw [hd] at hdv; injection hdv with hdv; subst hdv
-  have hr : f.repr (.fin x) = true := hrep rfl
+  have hr : f.repr (.fin x) = true := hrep
   rw [ef_decode_class f hv b hb] at hd
   generalize b / 2 ^ (f.nbits - 1) = S at *
   generalize b % 2 ^ (f.nbits - 1) = G at *
@@ -139,9 +134,8 @@ theorem ef_pow_facts (f : EF) (hv : f.valid = true) :
   · rw [hH, Nat.mul_sub, Nat.mul_one]
   · exact two_pow_ge _ _ (by unfold EF.m; rw [ef_pmax]; omega)
 
-/-- `encode(±inf)` returns the infinity code — except for MAX_VAL with a one-bit significand (F16) -/
-theorem ef_encode_inf (f : EF) (hv : f.valid = true) (s : Bool) (hr : f.repr (.inf s) = true)
-    (h16 : ¬ (f.kind = .maxVal ∧ f.pmax = 1)) :
+/-- `encode(±inf)` returns the infinity code `efGmax + 1` under the sign bit -/
+theorem ef_encode_inf (f : EF) (hv : f.valid = true) (s : Bool) (hr : f.repr (.inf s) = true) :
     efGmax f + 1 < 2 ^ (f.nbits - 1) ∧
     f.encode (.inf s) = .ok (2 ^ (f.nbits - 1) * (if s then 1 else 0) + (efGmax f + 1)) := by
   have ⟨hn, hes⟩ := ef_valid_basic f hv
@@ -150,8 +144,7 @@ theorem ef_encode_inf (f : EF) (hv : f.valid = true) (s : Bool) (hr : f.repr (.i
   have hp := ef_pmax_pos f hv
   have hr0 := hr
   rw [ef_repr_inf] at hr
-  simp only [Bool.and_eq_true] at hr
-  have hi := hr.1
+  have hi := hr
   have hpm1 : f.pmax - 1 = f.m := rfl
   have hB2 : 1 ≤ f.es → 2 ≤ 2 ^ f.es := fun h => by
     have := two_pow_pred f.es h; have := two_pow_pos' (f.es - 1); omega
@@ -175,11 +168,18 @@ theorem ef_encode_inf (f : EF) (hv : f.valid = true) (s : Bool) (hr : f.repr (.i
       · omega
     · have ⟨h2, h3⟩ := hkm hk
       have := hH4 (h3 hi)
-      have hp1 : ¬ f.pmax = 1 := fun h => h16 ⟨hk, h⟩
-      have := hA2 (by omega)
-      simp only [hp1, if_false]
-      refine ⟨_, _, rfl, by omega, ?_, by omega⟩
-      rw [hAB1]; omega
+      by_cases hp1 : f.pmax = 1
+      · -- one-bit significand: no mantissa field, ∞ is the exponent code below the NaN code
+        have hm0 : f.m = 0 := by unfold EF.m; omega
+        have hA1 : 2 ^ f.m = 1 := by rw [hm0]
+        simp only [hp1, if_true]
+        refine ⟨_, _, rfl, hA, ?_, by omega⟩
+        rw [hA1] at hH ⊢
+        omega
+      · have := hA2 (by omega)
+        simp only [hp1, if_false]
+        refine ⟨_, _, rfl, by omega, ?_, by omega⟩
+        rw [hAB1]; omega
     · have := hH2 (hkz (.inl hk) hi)
       refine ⟨_, _, rfl, by omega, ?_, by omega⟩
       rw [hAB1]; omega
@@ -192,10 +192,8 @@ theorem ef_encode_inf (f : EF) (hv : f.valid = true) (s : Bool) (hr : f.repr (.i
     or_field_add _ _ _ ⟨_, rfl⟩ hlt]
   rfl
 
-/-- `encode(NaN)` returns a pattern in range that decodes to NaN — except for a NaN whose sign bit is
-clear in a NEG_ZERO format, which is encoded as `+0` (defect F17) -/
-theorem ef_encode_nan (f : EF) (hv : f.valid = true) (s : Bool) (hr : f.repr (.nan s) = true)
-    (h17 : ¬ (f.kind = .negZero ∧ s = false)) :
+/-- `encode(NaN)` returns a pattern in range that decodes to NaN (whatever the sign of the NaN) -/
+theorem ef_encode_nan (f : EF) (hv : f.valid = true) (s : Bool) (hr : f.repr (.nan s) = true) :
     ∃ b t, f.encode (.nan s) = .ok b ∧ b < 2 ^ f.nbits ∧ f.decode b = .ok (.nan t) := by
   have ⟨hn, hes⟩ := ef_valid_basic f hv
   have ⟨hki, hkm, hkz⟩ := ef_valid_kind f hv
@@ -211,7 +209,7 @@ theorem ef_encode_nan (f : EF) (hv : f.valid = true) (s : Bool) (hr : f.repr (.n
   -- fields and resulting code `G'`, with the facts that make it a NaN code
   have key : ∃ e mb G', f.encodeFields (.nan s) = .ok (e, mb) ∧ mb < 2 ^ f.m ∧ 2 ^ f.m * e + mb = G' ∧
       G' < 2 ^ (f.nbits - 1) ∧
-      ((f.kind = .negZero ∧ G' = 0 ∧ s = true) ∨
+      ((f.kind = .negZero ∧ G' = 0) ∨
        (f.kind ≠ .negZero ∧ ¬ G' ≤ efGmax f ∧ ¬ (f.inf = true ∧ G' = efGmax f + 1))) := by
     unfold EF.encodeFields efGmax bitmask
     simp only [hpm1, hAB1]
@@ -243,50 +241,46 @@ theorem ef_encode_nan (f : EF) (hv : f.valid = true) (s : Bool) (hr : f.repr (.n
         have := hH4 (h3 hi)
         simp only [hi, if_true] at h; omega
     · -- NEG_ZERO
-      have hs : s = true := by cases s <;> simp_all
-      exact ⟨_, _, _, rfl, hA, rfl, by simp; exact two_pow_pos' _, .inl ⟨trivial, by simp, hs⟩⟩
+      exact ⟨_, _, _, rfl, hA, rfl, by simp; exact two_pow_pos' _, .inl ⟨trivial, by simp⟩⟩
     · -- NONE: NaN is not representable
       rw [ef_repr_nan, hk] at hr; simp at hr
   obtain ⟨e, mb, G', hf, hmb, hsum, hlt, hcls⟩ := key
-  have henc : f.encode (.nan s) = .ok (2 ^ (f.nbits - 1) * (if s then 1 else 0) + G') := by
+  have hsb : f.encodeSign (.nan s) ≤ 1 := by
+    unfold EF.encodeSign; simp only; split <;> (try split) <;> omega
+  have henc : f.encode (.nan s) = .ok (2 ^ (f.nbits - 1) * f.encodeSign (.nan s) + G') := by
     rw [ef_encode_of_fields f _ e mb hr0 hf, Nat.or_assoc, two_pow_mul_or _ _ _ hmb, hsum,
       or_field_add _ _ _ ⟨_, rfl⟩ hlt]
-    rfl
-  have ⟨hblt, hdec⟩ := ef_decode_split f hv (if s then 1 else 0) G' (by cases s <;> simp) hlt
-  refine ⟨_, decide ((if s then 1 else 0) = 1), henc, hblt, ?_⟩
+  have ⟨hblt, hdec⟩ := ef_decode_split f hv (f.encodeSign (.nan s)) G' hsb hlt
+  refine ⟨_, decide (f.encodeSign (.nan s) = 1), henc, hblt, ?_⟩
   rw [hdec]
-  rcases hcls with ⟨h1, h2, h3⟩ | ⟨h1, h2, h3⟩
-  · subst h3; simp [h1, h2]
-  · have : ¬ (f.kind = .negZero ∧ G' = 0 ∧ (if s then 1 else 0) = 1) := fun h => h1 h.1
+  rcases hcls with ⟨h1, h2⟩ | ⟨h1, h2, h3⟩
+  · have h3 : f.encodeSign (.nan s) = 1 := by unfold EF.encodeSign; simp [h1]
+    simp [h1, h2, h3]
+  · have : ¬ (f.kind = .negZero ∧ G' = 0 ∧ f.encodeSign (.nan s) = 1) := fun h => h1 h.1
     simp only [this, if_false, h2, h3]
 
 theorem sameValue_symm {x y : RF} (h : sameValue x y) : sameValue y x := by
   unfold sameValue at *; rw [Int.min_comm]; exact h.symm
 
-/-- **decode ∘ encode** on every representable value, apart from the two defect shapes:
-±∞ in MAX_VAL formats with a one-bit significand (F16) and a NaN with clear sign bit in NEG_ZERO
-formats (F17) -/
-theorem ef_decode_encode (f : EF) (hv : f.valid = true) (v : FV) (hr : f.repr v = true)
-    (h16 : ¬ (v.isInf = true ∧ f.kind = .maxVal ∧ f.pmax = 1))
-    (h17 : ¬ (f.kind = .negZero ∧ v = .nan false)) :
+/-- **decode ∘ encode** on every representable value: finite numbers (any `(exp, c)` spelling, ±0),
+±∞, and NaN up to its payload/sign -/
+theorem ef_decode_encode (f : EF) (hv : f.valid = true) (v : FV) (hr : f.repr v = true) :
     ∃ b w, f.encode v = .ok b ∧ b < 2 ^ f.nbits ∧ f.decode b = .ok w ∧ sameFV v w := by
   have hp := ef_pmax_pos f hv
   have hH := two_pow_pos' (f.nbits - 1)
   cases v with
   | nan s =>
-    have h17' : ¬ (f.kind = .negZero ∧ s = false) := fun ⟨h1, h2⟩ => h17 ⟨h1, by rw [h2]⟩
-    obtain ⟨b, t, h1, h2, h3⟩ := ef_encode_nan f hv s hr h17'
+    obtain ⟨b, t, h1, h2, h3⟩ := ef_encode_nan f hv s hr
     exact ⟨b, .nan t, h1, h2, h3, trivial⟩
   | inf s =>
-    have h16' : ¬ (f.kind = .maxVal ∧ f.pmax = 1) := fun h => h16 ⟨rfl, h⟩
-    have ⟨hlt, henc⟩ := ef_encode_inf f hv s hr h16'
+    have ⟨hlt, henc⟩ := ef_encode_inf f hv s hr
     have ⟨hblt, hdec⟩ := ef_decode_split f hv (if s then 1 else 0) (efGmax f + 1) (by cases s <;> simp) hlt
-    rw [ef_repr_inf] at hr; simp only [Bool.and_eq_true] at hr
+    rw [ef_repr_inf] at hr
     refine ⟨_, .inf s, henc, hblt, ?_, rfl⟩
     rw [hdec]
     have a : ¬ (f.kind = .negZero ∧ efGmax f + 1 = 0 ∧ (if s then 1 else 0) = 1) := by omega
     have b : ¬ (efGmax f + 1 ≤ efGmax f) := by omega
-    simp only [a, b, if_false, hr.1, and_self, if_true]
+    simp only [a, b, if_false, hr, and_self, if_true]
     cases s <;> simp
   | fin x =>
     by_cases hc : x.c = 0
